@@ -25,7 +25,13 @@ RULE = ("estimators over bounded-dynamics definitions with 1-2 sensors of 1-2 re
         "members (equal and unequal reading counts, either insertion order), transform and mahalanobis vs the filter run by hand in sorted(keys) order; "
         "fixed stream score-with-sample-weights: score(X, sample_weight=w) for 0/1 masks, recency weights in (0, 1], integer repeat counts, "
         "mean-one and all-one weights (2-sensor and 1-sensor estimators, filtering on and off): a weight of one per value must give the documented "
-        "combination of the by-hand NIS, every other weighting must be repeatable and finite (how weights enter is not documented, so not demanded)")
+        "combination of the by-hand NIS, every other weighting must be repeatable and finite (how weights enter is not documented, so not demanded); "
+        "fixed stream readings-in-very-different-units: a 2-reading sensor (next to a 1-reading one) whose readings are a state times 2^-30 / 2^30 / 2^-24 with "
+        "noises scaled alike (innovation covariance valid and invertible, condition number 1e14-1e18), filtering on and off: transform / mahalanobis / score "
+        "vs y^T S^-1 y solved in exact rational arithmetic on the exported filter's own y and S; "
+        "fixed stream noise-tables-keyed-by-symbols: sensor noise tables keyed by the reading's Symbol, by name, or mixed in one table: parameters (key types, "
+        "keys, values, the caller's own dicts) before vs after each of transform / mahalanobis / score, values vs the by-hand run and vs the "
+        "name-keyed twin")
 NOTE = ["by-hand oracle: export_python(), predict with dt = 0.1, update sensors in sorted key order, NIS from the recorded innovation and S",
         "Lean model uses dt = 1/10 exactly (binary64 0.1 differs by 5e-18 relative) and exact rationals; compared under 1e-9 relative "
         "tolerance; rows after a reading whose NIS is within 1e-7 of the editing threshold are not compared with the exact model",
@@ -35,7 +41,13 @@ NOTE = ["by-hand oracle: export_python(), predict with dt = 0.1, update sensors 
         "10 * mean(sqrt(NIS))^2 + (1/V + V)/2 with V = sum(NIS) + 0.01 * sum(noise^2), NIS from the exported filter run by hand, and must equal the "
         "unweighted score; for other weightings only repeatability and finiteness are demanded - the property speaks of the documented combination "
         "and the weighted form is documented nowhere (a seeded change that renormalises the weighted bias term, C16-r7-2, is therefore deliberately "
-        "not reported); weight vectors with V <= 0 are skipped and counted"]
+        "not reported); weight vectors with V <= 0 are skipped and counted",
+        "readings-in-very-different-units: the oracle is by_hand(exact=True): predict/update through the exported filter, NIS of each reading as the exact "
+        "rational solution of y^T S^-1 y (Cramer, Fractions) for the binary64 y = z - h(x) and S = H P H^T + R built from the filter's parts - no inverse "
+        "routine and no cutoff of small directions; same 1e-9 relative tolerance; inputs fixed in the code; an S that is exactly singular is skipped and counted",
+        "noise-tables-keyed-by-symbols: the library matches noise entries to readings by name, so Symbol keys are accepted inputs; 'parameters unchanged' is "
+        "read as: get_params() holds the same objects, and their content compared with key TYPES (a Symbol key that became a str is a change); inputs fixed in the code; "
+        "score is not called (and counted) when a table of 2+ entries has Symbol keys: score sorts the keys of each table and raises TypeError there on the unpatched library"]
 LEAN_ROWS = 2
 PARTIAL = ["numpy float arithmetic; scikit-learn BaseEstimator machinery is not modelled"]
 
@@ -49,7 +61,27 @@ def make_adapter(d, process, sensor, cal, k):
         {s: float(cal[s.name]) for s in d.calibration}, config=python.Config(innovation_filtering=k))
 
 
-def by_hand(adapter, d, X):
+def _exact_nis(y, S):
+    """y^T S^-1 y in exact rational arithmetic for binary64 y (m, 1) and S (m, m), m <= 2; None when S is exactly singular"""
+    m = S.shape[0]
+    yy = [F(float(y[i, 0])) for i in range(m)]
+    SS = [[F(float(S[i, j])) for j in range(m)] for i in range(m)]
+    if m == 1:
+        return None if SS[0][0] == 0 else float(yy[0] * yy[0] / SS[0][0])
+    if m == 2:
+        det = SS[0][0] * SS[1][1] - SS[0][1] * SS[1][0]
+        if det == 0:
+            return None
+        return float((yy[0] * yy[0] * SS[1][1] - yy[0] * yy[1] * (SS[0][1] + SS[1][0]) + yy[1] * yy[1] * SS[0][0]) / det)
+    sol = sympy.Matrix(m, m, [sympy.Rational(v.numerator, v.denominator) for r in SS for v in r])
+    if sol.det() == 0:
+        return None
+    yv = sympy.Matrix(m, 1, [sympy.Rational(v.numerator, v.denominator) for v in yy])
+    return float((yv.T * sol.LUsolve(yv))[0, 0])
+
+
+def by_hand(adapter, d, X, exact=False):
+    """`exact`: the NIS of each reading is solved in exact rational arithmetic on the filter's y and S (None where S is singular)"""
     ekf = adapter.export_python()
     st, cv = ekf.State(), ekf.Covariance()
     out = []
@@ -70,7 +102,7 @@ def by_hand(adapter, d, X):
             Rm = np.asarray(getattr(ekf.sensor_noises[key], "data", ekf.sensor_noises[key]), dtype=float)
             S = Hm @ np.asarray(cv.data, dtype=float) @ Hm.T + Rm
             st, cv = ekf.sensor_model(st, cv, sensor_key=key, sensor_reading=ekf.make_reading(key, data=zc))
-            nis_row.append(float((y.T @ np.linalg.inv(S) @ y).item()))
+            nis_row.append(_exact_nis(y, S) if exact else float((y.T @ np.linalg.inv(S) @ y).item()))
         out.append(nis_row)
     return out
 
@@ -304,6 +336,161 @@ def score_with_sample_weights(ctx):
                 ctx.fail("score-all-ones-vs-unweighted", f"score with a weight of one per value {sc!r} differs from the unweighted score {plain!r}", case)
 
 
+def readings_in_very_different_units(ctx):
+    """a sensor whose two readings are in very different units (a state times 2^-30 next to a state as it is, ...): the innovation
+    covariance is valid and invertible but badly scaled; transform / mahalanobis / score are still the filter's NIS, here solved in
+    exact rational arithmetic on the exported filter's own innovation and S. Inputs are fixed."""
+    R = sympy.Rational
+    x, y, u, dt = sympy.symbols("qx qy qu dt")
+    # (scale of reading a, scale of reading b, filtering)
+    plans = [(R(1, 2 ** 30), R(1), None), (R(1, 2 ** 30), R(1), 5.0), (R(1), R(2 ** 30), None), (R(2 ** 15), R(1, 2 ** 15), 4.0),
+             (R(1, 2 ** 24), R(1), None)]
+    base_rows = [[0.5, 1.25, -0.75, 0.5], [-1.0, -0.5, 1.5, 1.0], [0.25, 2.0, 0.25, -1.5], [1.5, -1.75, -1.0, 0.75], [-0.5, 0.75, 2.0, 0.25],
+                 [0.75, -0.25, -0.5, -1.0]]
+    for sa, sb, k in plans:
+        d = gen.Definition(dt, [x, y], [u], [], {x: x + dt * u, y: y * R(7, 8) + dt * u / 2},
+                           {"pair": {"a": sa * x, "b": sb * y}, "solo": {"c": x + y}})
+        process = {"qu": F(1, 4)}
+        sensor = {"pair": {"a": F(3, 8) * F(sa.p, sa.q) ** 2, "b": F(1, 2) * F(sb.p, sb.q) ** 2}, "solo": {"c": F(5, 16)}}
+        X = np.array([[r[0], r[1] * float(sa), r[2] * float(sb), r[3]] for r in base_rows], dtype=float)
+        case = {"def": d.describe(), "stream": "readings-in-very-different-units", "scales": [str(sa), str(sb)], "filtering": k,
+                "sensor_noise": {a: {r: str(v) for r, v in b.items()} for a, b in sensor.items()}, "X": X.tolist()}
+        ctx.case(case, True); ctx.count("stream=readings-in-very-different-units")
+        try:
+            with fk.quiet():
+                ad = make_adapter(d, process, sensor, {}, k)
+                T = np.asarray(ad.transform(X), dtype=float)
+                M = np.asarray(ad.mahalanobis(X), dtype=float)
+                sc = ad.score(X)
+                hand = by_hand(ad, d, X.tolist(), exact=True)
+        except Exception as e:
+            ctx.fail(f"adapter-raises:{fk.exc_kind(e)}:different-units", f"readings scaled by {sa} and {sb}: adapter call raises {e!r}"[:300], case)
+            continue
+        if any(v is None for row in hand for v in row):
+            ctx.count("different_units_S_exactly_singular"); continue
+        H = np.array(hand, dtype=float)
+        tol = 1e-9 * (1 + float(np.max(np.abs(H))))
+        if T.shape != H.shape or not np.all(np.isfinite(T)) or float(np.max(np.abs(T - H))) > tol:
+            ctx.fail("transform-vs-byhand:different-units", f"readings scaled by {sa} and {sb}: transform returns {T.tolist()} but the exported filter "
+                     f"run by hand, y^T S^-1 y solved exactly, gives {H.tolist()}", case)
+            continue
+        if M.shape != (H.size,) or not np.all(np.isfinite(M)) or float(np.max(np.abs(M - H.flatten()))) > tol:
+            ctx.fail("mahalanobis-vs-byhand:different-units", f"readings scaled by {sa} and {sb}: mahalanobis returns {M.tolist()}, the by-hand NIS "
+                     f"flattened is {H.flatten().tolist()}", case)
+            continue
+        flat = H.flatten()
+        var = float(np.sum(flat))
+        mat = sum(float(v) ** 2 for v in process.values()) + sum(float(v) ** 2 for rd in sensor.values() for v in rd.values())
+        want = 10.0 * float(np.mean(np.sqrt(flat))) ** 2 + (1.0 / var + var) / 2.0 + 0.01 * mat
+        if not (var > 0.0):
+            ctx.count("different_units_total_nis_zero"); continue
+        if not core.close(sc, want, scale=abs(want)):
+            ctx.fail("score-formula:different-units", f"readings scaled by {sa} and {sb}: score {sc!r} is not 10*bias + (1/var + var)/2 + 0.01*matrix "
+                     f"= {want!r} of the by-hand NIS", case)
+
+
+def _typed(params):
+    """the estimator's parameters as comparable values in which the TYPE of every dict key counts"""
+    def conv(v):
+        if isinstance(v, dict):
+            return ("dict", [((type(a).__module__, type(a).__name__, str(a)), conv(b)) for a, b in v.items()])
+        if isinstance(v, (list, tuple)):
+            return (type(v).__name__, [conv(b) for b in v])
+        if isinstance(v, (int, float, str, bool)) or v is None:
+            return (type(v).__name__, v)
+        return (type(v).__name__, repr(v))
+    return {kk: conv(vv) for kk, vv in params.items() if kk != "symbolic_model"}
+
+
+def noise_tables_keyed_by_symbols(ctx):
+    """sensor noise tables keyed by the reading's Symbol (or by name, or mixed in one table) - the library matches noise entries to
+    readings by name: transform / mahalanobis / score leave the estimator's parameters (and the dicts the caller handed over) as
+    they were, key types included, and return the by-hand values. Inputs are fixed."""
+    from formak import python
+    R = sympy.Rational
+    S_ = sympy.Symbol
+    x, y, u, dt = sympy.symbols("qx qy qu dt")
+    d2 = gen.Definition(dt, [x, y], [u], [], {x: x + dt * u, y: y * R(7, 8) + dt * u / 2}, {"first": {"alt": x}, "second": {"rng": x + y}})
+    d3 = gen.Definition(dt, [x, y], [u], [], {x: x * R(15, 16) + dt * u, y: y + dt * x}, {"first": {"alt": x, "brg": y - x}, "second": {"rng": x + y}})
+    d1 = gen.Definition(dt, [x, y], [], [], {x: x + dt * y, y: y * R(9, 10)}, {"only": {"r": x + y}})
+    plans = [
+        ("every table keyed by Symbols", d2, {"first": {S_("alt"): 0.5}, "second": {S_("rng"): 0.3125}}, None),
+        ("every table keyed by Symbols", d3, {"first": {S_("alt"): 0.5, S_("brg"): 0.75}, "second": {S_("rng"): 0.3125}}, 5.0),
+        ("one table keyed by Symbols, one by names", d3, {"first": {"alt": 0.5, "brg": 0.75}, "second": {S_("rng"): 0.3125}}, None),
+        ("Symbol and name keys mixed in one table", d3, {"first": {S_("alt"): 0.5, "brg": 0.75}, "second": {"rng": 0.3125}}, 4.0),
+        ("single sensor keyed by a Symbol", d1, {"only": {S_("r"): 0.5}}, None),
+        ("every table keyed by names", d2, {"first": {"alt": 0.5}, "second": {"rng": 0.3125}}, 5.0),
+    ]
+    base_rows = [[0.5, 1.25, -0.75, 0.5], [-1.0, -0.5, 1.5, 1.0], [0.25, 2.0, 0.25, -1.5], [1.5, -1.75, -1.0, 0.75], [-0.5, 0.75, 2.0, 0.25]]
+    for label, d, noises, k in plans:
+        width = len(d.control) + sum(len(rd) for rd in d.sensors.values())
+        X = np.array([r[:width] for r in base_rows], dtype=float)
+        case = {"def": d.describe(), "stream": "noise-tables-keyed-by-symbols", "noise_tables": label, "filtering": k,
+                "sensor_noises": {a: {f"{type(r).__name__}:{r}": v for r, v in b.items()} for a, b in noises.items()}, "X": X.tolist()}
+        ctx.case(case, True); ctx.count("stream=noise-tables-keyed-by-symbols")
+        process = {S_(s.name): 0.25 for s in d.control}
+        handed = {"process_noise": process, "sensor_models": {key: dict(rd) for key, rd in d.sensors.items()}, "sensor_noises": noises}
+        handed_before = _typed(handed)
+        try:
+            with fk.quiet():
+                ad = python.SklearnEKFAdapter.Create(fk.ui_model(d), handed["process_noise"], handed["sensor_models"], handed["sensor_noises"], {},
+                                                     config=python.Config(innovation_filtering=k))
+                twin = make_adapter(d, {str(a): b for a, b in process.items()}, {a: {str(r): v for r, v in b.items()} for a, b in noises.items()}, {}, k)
+                before = ad.get_params()
+                typed_before = _typed(before)
+        except Exception as e:
+            ctx.fail(f"adapter-raises:{fk.exc_kind(e)}:noise-keys", f"{label}: creating the estimator raises {e!r}"[:300], case)
+            continue
+        results = {}
+        stop = False
+        # score adds up the squared noises of a table in the sorted order of its keys: for a table of 2+ entries that are not all names that
+        # order is undefined (Symbols do not sort; the library raises TypeError there) - score is not called on those, and counted
+        score_defined = all(len(t) == 1 or all(isinstance(r, str) for r in t) for t in noises.values())
+        if not score_defined:
+            ctx.count("score_not_called:multi_entry_table_with_symbol_keys")
+        for call in ("transform", "mahalanobis", "score") if score_defined else ("transform", "mahalanobis"):
+            try:
+                with fk.quiet():
+                    r1 = getattr(ad, call)(X.copy())
+                    after = ad.get_params()
+                    typed_after = _typed(after)
+                    r2 = getattr(ad, call)(X.copy())
+            except Exception as e:
+                ctx.fail(f"adapter-raises:{fk.exc_kind(e)}:noise-keys", f"{label}: {call} raises {e!r}"[:300], case)
+                stop = True; break
+            changed = [kk for kk in typed_before if typed_after.get(kk) != typed_before[kk]]
+            if set(after) != set(before) or any(after[kk] is not before[kk] for kk in before) or changed:
+                ctx.fail("adapter-mutates-params:noise-keys", f"{label}: {call} changed the estimator's parameters {changed or sorted(before)}: "
+                         f"{[typed_before[c] for c in changed]} became {[typed_after.get(c) for c in changed]}"[:600], dict(case, call=call))
+                stop = True; break
+            if _typed(handed) != handed_before:
+                ctx.fail("adapter-mutates-params:callers-dicts", f"{label}: {call} rewrote the dicts handed to the estimator", dict(case, call=call))
+                stop = True; break
+            if not np.array_equal(np.asarray(r1, dtype=float), np.asarray(r2, dtype=float)):
+                ctx.fail("adapter-not-repeatable:noise-keys", f"{label}: repeating {call} gives different values", dict(case, call=call))
+                stop = True; break
+            results[call] = r1
+        if stop:
+            continue
+        try:
+            with fk.quiet():
+                H = np.array(by_hand(ad, d, X.tolist()), dtype=float)
+                Tt = np.asarray(twin.transform(X.copy()), dtype=float)
+        except Exception as e:
+            ctx.fail(f"adapter-raises:{fk.exc_kind(e)}:noise-keys", f"{label}: the by-hand run / name-keyed twin raises {e!r}"[:300], case)
+            continue
+        T = np.asarray(results["transform"], dtype=float)
+        M = np.asarray(results["mahalanobis"], dtype=float)
+        tol = 1e-9 * (1 + float(np.max(np.abs(H))))
+        if T.shape != H.shape or float(np.max(np.abs(T - H))) > tol:
+            ctx.fail("transform-vs-byhand:noise-keys", f"{label}: transform returns {T.tolist()}, the exported filter run by hand gives {H.tolist()}", case)
+        elif Tt.shape != T.shape or float(np.max(np.abs(T - Tt))) > tol:
+            ctx.fail("transform-vs-name-keyed-twin", f"{label}: transform returns {T.tolist()}, the estimator with the same noises keyed by names "
+                     f"returns {Tt.tolist()}", case)
+        elif M.shape != (T.size,) or not np.array_equal(M, T.flatten()):
+            ctx.fail("mahalanobis-not-flat:noise-keys", f"{label}: mahalanobis is not the transform flattened", case)
+
+
 def run(ctx):
     audit = core.lean_audit("C16")
     drv = core.Driver()
@@ -405,6 +592,8 @@ def run(ctx):
     results_are_values_and_vector_data(ctx)
     sensor_ids_that_are_not_strings(ctx)      # fixed inputs; no draws from ctx.rng
     score_with_sample_weights(ctx)            # fixed inputs; no draws from ctx.rng
+    readings_in_very_different_units(ctx)     # fixed inputs; no draws from ctx.rng
+    noise_tables_keyed_by_symbols(ctx)        # fixed inputs; no draws from ctx.rng
     ans = drv.run()
     for idx, T1, k, d, info in pending:
         a = ans[idx]
